@@ -6,5 +6,6 @@ From Coq Require Import ZArith List.
 From Coq Require Extraction ExtrOcamlBasic.
 From Chess3 Require Export Model.TimeCtl.
 From Chess3 Require Export Model.BoardDef.
+From Chess3 Require Export Model.BoardStreams.
 
 Extraction Language OCaml.
